@@ -166,6 +166,8 @@ structure RS where
   bdChecked : Nat := 0        -- decisions of breakdown_lookahead compared
   newExt : Option (Array (Nat × Nat × String)) := none  -- external-token leaves of the (error-free) new tree
   extChecked : Nat := 0
+  newRanges : List (Nat × Nat) := []   -- included ranges of the new parse
+  posUncertain : Nat := 0              -- before/past events at a position outside the included ranges
   reordered : Nat := 0        -- refusals whose logged reason is a failing test but not the first one
   maxPos : Nat := 0           -- furthest position any stack version has been seen at
   indexSkipped : Nat := 0     -- events explained only by `included_range_difference_index` having
@@ -230,8 +232,14 @@ def RS.gateEvent (s : RS) (L : Lang) (symName : Nat → String) (ev : Verdict) (
       let v := reuseGate L s.diffs.toList t off s.pos stv extEq ld s.eofEnd
       let v' := reuseGate L live t off s.pos stv extEq ld s.eofEnd
       let inSet := fun (ds : List (Nat × Nat)) => decide (off = s.pos) && extEq && (refusalReasons ds t off ld s.eofEnd).contains ev
+      -- the log gives the parser position as row/column; it is turned into a byte offset through the
+      -- text, which is only meaningful inside the included ranges (behind the last range / inside a
+      -- gap the runtime's byte and point positions need not agree)
+      let posInRanges := s.newRanges.isEmpty || s.newRanges.any (fun r => r.1 ≤ s.pos && s.pos ≤ r.2)
+      let posKind := fun (x : Verdict) => x == Verdict.before || x == Verdict.past
       let s :=
         if v = ev then { s with matched := s.matched + 1 }
+        else if !posInRanges && (posKind v || posKind ev) then { s with undet := s.undet + 1, posUncertain := s.posUncertain + 1 }
         else if inSet s.diffs.toList then { s with matched := s.matched + 1, reordered := s.reordered + 1 }
         else if !known && fl v && fl ev then { s with undet := s.undet + 1 }
         else if v' = ev then { s with matched := s.matched + 1, indexSkipped := s.indexSkipped + 1 }
